@@ -1,8 +1,8 @@
 #!/bin/sh
-# Developer tool: apply a patch file in the scratch worktree /tmp/mut_eval2 and run the given checks against it (evidence goes to /tmp/try_evid).
+# Developer tool: apply a patch file in the scratch worktree /tmp/mut_eval3 and run the given checks against it (evidence goes to /tmp/try_evid).
 # usage: try_patch.sh <patch.diff> <prop> [<prop>...]   (VERIF_SEED / TIER honoured)
 p=$1; shift
-wt=/tmp/mut_eval2
+wt=/tmp/mut_eval3
 [ -d $wt ] || git -C /repo worktree add --detach $wt HEAD >/dev/null 2>&1
 git -C $wt checkout -q -- . && git -C $wt apply $p || { echo "patch does not apply"; exit 3; }
 for c in "$@"; do
